@@ -313,3 +313,12 @@ func (p *Program) Method(T types.Type, name string) *ssa.Function {
 	}
 	return nil
 }
+
+// InModuleGlobal reports whether a global belongs to a module package.
+func (p *Program) InModuleGlobal(g *ssa.Global) bool {
+	if g.Pkg == nil || g.Pkg.Pkg == nil {
+		return false
+	}
+	path := g.Pkg.Pkg.Path()
+	return path == ModPath || strings.HasPrefix(path, ModPath+"/")
+}
